@@ -388,6 +388,13 @@ func retypeCrossFileBaseTypedefConsts(p *idl.Program) int {
 				n++
 			}
 		}
+		// the same finding: a map key typed by a typedef of binary from another file (the Go key type is string)
+		eachTypeOfFile(f, func(t *idl.Type) {
+			if t.Base == "map" && t.Key != nil && t.Key.Ref != nil && t.Key.Ref.Kind == idl.KTypedef && chainLeavesFile(t.Key, f) && t.Key.FinalCat() == "binary" {
+				t.Key = &idl.Type{Base: "binary"}
+				n++
+			}
+		})
 		// the same finding: an enum from another file initialised by number
 		for _, d := range f.Defs {
 			if d.Kind != idl.KConst || d.Value == nil || d.Value.Kind != idl.VInt {
@@ -429,6 +436,12 @@ func hasCrossFileExtends(p *idl.Program) bool {
 }
 
 func eachType(p *idl.Program, fn func(t *idl.Type)) {
+	for _, f := range p.Files {
+		eachTypeOfFile(f, fn)
+	}
+}
+
+func eachTypeOfFile(f *idl.File, fn func(t *idl.Type)) {
 	var walk func(t *idl.Type)
 	walk = func(t *idl.Type) {
 		if t == nil {
@@ -438,7 +451,7 @@ func eachType(p *idl.Program, fn func(t *idl.Type)) {
 		walk(t.Key)
 		walk(t.Elem)
 	}
-	for _, f := range p.Files {
+	{
 		for _, d := range f.Defs {
 			walk(d.Type)
 			for _, fl := range d.Fields {
